@@ -38,6 +38,59 @@ var (
 // keys / attribute names, NFC and not
 var c06Keys = []string{"a", "b", "k", "é", "é", "zz", "", "Å", "Å", "가", "가"}
 
+// ---- correspondence of the model functions C06 adds (lean/CtyModel/WFCons.lean) ------------
+
+func c06Wires(vs []cty.Value) string {
+	ws := make([]string, len(vs))
+	for i, v := range vs {
+		ws[i] = encVal(v)
+	}
+	return "(" + strings.Join(ws, " ") + ")"
+}
+
+// SetVal against the model, with the implementation's own hash of every member as oracle column
+func c06CorrSetVal(ctx *Ctx, ms []cty.Value) {
+	hs := make([]string, len(ms))
+	for i, m := range ms {
+		hs[i] = hashOracle(m)
+		if hs[i] == "-" {
+			return // the hash of this member panics (capsule): not modelled
+		}
+	}
+	out, _, _ := opOut(func() cty.Value { return cty.SetVal(ms) })
+	ctx.Add("c06.setval", out, c06Wires(ms), "("+strings.Join(hs, " ")+")")
+}
+
+func c06CorrAccessors(ctx *Ctx, v cty.Value) {
+	w := encVal(v)
+	var s string
+	if p, _ := try(func() { s = v.AsString() }); p {
+		ctx.Add("c06.asstring", "panic", w)
+	} else {
+		ctx.Add("c06.asstring", "ok "+encStr(s), w)
+	}
+	var n int
+	if p, _ := try(func() { n = v.LengthInt() }); p {
+		ctx.Add("c06.lengthint", "panic", w)
+	} else {
+		ctx.Add("c06.lengthint", fmt.Sprintf("ok %d", n), w)
+	}
+	var es []string
+	if p, _ := try(func() {
+		for it := v.ElementIterator(); it.Next(); {
+			_, e := it.Element()
+			es = append(es, encVal(e))
+		}
+	}); p {
+		ctx.Add("c06.elements", "panic", w)
+	} else {
+		if v.Type().IsSetType() {
+			sortStrings(es)
+		}
+		ctx.Add("c06.elements", "ok ("+strings.Join(es, " ")+")", w)
+	}
+}
+
 func c06Produce(j *c06Judge) {
 	c06Constructors(j)
 	c06PrecisionPairs(j)
@@ -110,6 +163,7 @@ func c06Constructors(j *c06Judge) {
 		} else {
 			j.produce("ListVal", c06Lit("cty.ListVal", ms...), func() cty.Value { return cty.ListVal(ms) })
 			j.produce("SetVal", c06Lit("cty.SetVal", ms...), func() cty.Value { return cty.SetVal(ms) })
+			c06CorrSetVal(ctx, ms)
 			mm := map[string]cty.Value{}
 			var desc []string
 			for _, m := range ms {
@@ -163,6 +217,7 @@ func c06PrecisionPairs(j *c06Judge) {
 		ctx.R.Shuffle(len(cands), func(x, y int) { cands[x], cands[y] = cands[y], cands[x] })
 		ms := cands[:2+ctx.R.Intn(len(cands)-1)]
 		j.produce("SetVal", c06Lit("cty.SetVal", ms...), func() cty.Value { return cty.SetVal(ms) })
+		c06CorrSetVal(ctx, ms)
 		j.produce("ListVal", c06Lit("cty.ListVal", ms...), func() cty.Value { return cty.ListVal(ms) })
 		ts := make([]cty.Value, len(ms))
 		for x, m := range ms {
@@ -261,6 +316,8 @@ func c06Marks(j *c06Judge) {
 		w := genVal(ctx.R, genTy(ctx.R, 1, TyOpts{}), 1, c06Full)
 		m1, m2 := markNames[ctx.R.Intn(3)], markNames[ctx.R.Intn(3)]
 		j.produce("Mark", c06Lit("Mark "+m1, v), func() cty.Value { return v.Mark(m1) })
+		ctx.Add("c06.mark", encVal(v.Mark(m1)), encVal(v), encStr(m1))
+		c06CorrAccessors(ctx, v)
 		j.produce("Mark.Mark", c06Lit("Mark.Mark", v), func() cty.Value { return v.Mark(m1).Mark(m2) })
 		j.produce("WithMarks", c06Lit("WithMarks{m1,m2}", v), func() cty.Value { return v.WithMarks(cty.NewValueMarks(m1, m2)) })
 		j.produce("WithMarks:none", c06Lit("WithMarks()", v), func() cty.Value { return v.WithMarks() })
